@@ -47,7 +47,7 @@ pub struct Case {
     order: usize,       // permutation index 0..720
     nesting: usize,     // 0 flat, 1 xacro:macro, 2 two levels
     naming: usize,      // see NAMES
-    copies: usize,      // 0 single, 1 identical second copy, 2 conflicting copy
+    copies: usize,      // 0 single, 1 identical second copy, 2 conflicting copy (origin), 3 conflicting copy (limits only)
 }
 
 const NAMINGS: [&str; 8] = [
@@ -211,6 +211,19 @@ pub fn document(c: &Case) -> (String, Option<[String; 6]>, Expect) {
         2 => {
             let (other, _) = robot_joints(c, true);
             for &i in &perm {
+                body.push_str(&other[i]);
+            }
+            expect.conflict = true;
+        }
+        3 => {
+            // a second copy that agrees in origin and axis and differs in the limits only
+            let other_style = match c.limit_style {
+                3 => 0,
+                4 | 5 => 0,
+                _ => 3,
+            };
+            let (other, _) = robot_joints(&Case { limit_style: other_style, ..*c }, false);
+            for &i in perm.iter().rev() {
                 body.push_str(&other[i]);
             }
             expect.conflict = true;
@@ -404,7 +417,7 @@ pub fn run(ctx: &Ctx) -> Report {
             order,
             nesting: ix[3],
             naming: ix[2],
-            copies: (k / 2 + ix[2]) % 3,
+            copies: (k / 2 + ix[2]) % 4,
         };
         let (fails, sig) = eval(&c);
         r.states += 1;
@@ -433,7 +446,7 @@ pub fn run(ctx: &Ctx) -> Report {
     rep.rule = format!(
         "generated descriptions: 6 parameter records x layouts {{c2 on z|x}} x {{c3 on joint 5|4}} x {{wrist along z|x}} x 8 naming schemes (incl. decorated, \
          upper-case, explicit one-/zero-based lists) x nesting {{flat, xacro:macro, two levels}} x {n_order} joint-order permutations, with sign pattern (64), axis \
-         syntax, limit syntax (6 uniform + 3 mixed per joint: even joints only, all but J6, J1/J4 absent with J3 unreadable) and single/identical/conflicting copy rotating along the permutation axis; oracle: parameters equal the printed decimals, \
+         syntax, limit syntax (6 uniform + 3 mixed per joint: even joints only, all but J6, J1/J4 absent with J3 unreadable) and single/identical/conflicting (origin; limits only) copy rotating along the permutation axis; oracle: parameters equal the printed decimals, \
          signs, limits, solver constraints follow arc membership (no <limit> => unconstrained), conflicting copy => Err; error paths: each joint missing, \
          token corruptions => never a panic; signature = (outcome, naming, layout)"
     );
